@@ -104,6 +104,10 @@ static MPT_STRUCT(buffer) *_mpt_buffer_alloc_detach(MPT_STRUCT(buffer) *ptr, siz
 		/* align size */
 		add = len % size;
 		if (add) {
+			if (len > (SIZE_MAX - (size - add))) {
+				errno = EINVAL;
+				return 0;
+			}
 			len += size - add;
 		}
 	}
